@@ -137,7 +137,7 @@ def free_port():
 
 def main(tier, replay):
     ctx = vlib.Ctx("C16", tier, "exploration")
-    ctx.rule = ("request sequences of the C01 alphabet (lengths 1..12, 20 kinds, flags) through 7 ways of reaching the same service: in-memory reference, unix path, unix path;mode=, abstract unix, TCP, Connection::with_activate(cmd), "
+    ctx.rule = ("request sequences of the C01 alphabet (lengths 1..12, 20 kinds, flags) through 8 ways of reaching the same service: in-memory reference, unix path, unix path;mode=, abstract unix, TCP by numeric address and by host name, Connection::with_activate(cmd), "
                 "Connection::with_bridge(cmd); activation self-report of the spawned service cross-checked with /proc; server-side environment matrix LISTEN_FDS x LISTEN_PID x LISTEN_FDNAMES observed by which socket answers; "
                 "address strings from a scheme/garbage generator through varlink_connect, Connection::with_address and Listener::new; distinct = (transport, sequence) / matrix row / address string; non-trivial = sequence with >=2 requests, any matrix row, any address")
     ctx.assumptions.append("each constructor runs in a child process under a 30 s watchdog; a hang is reported with gdb backtraces of the stuck processes")
@@ -165,6 +165,14 @@ def main(tier, replay):
                 ctx.violation("c16:server-does-not-listen:%s" % name, {"engine": "c16", "address": addr, "message": "vh serve did not start listening on this address form"})
                 continue
             transports.append((name, "address", addr))
+        # the same TCP service addressed by host name instead of a numeric address
+        tcp_port = [a for (n, m, a) in transports if n == "tcp"]
+        if tcp_port:
+            try:
+                socket.getaddrinfo("localhost", None, socket.AF_INET)
+                transports.append(("tcp-hostname", "address", "tcp:localhost:" + tcp_port[0].rsplit(":", 1)[1]))
+            except OSError:
+                ctx.count("skipped_unspecified")
         transports.append(("with_activate", "activate", "%s serve $VARLINK_ADDRESS" % vh))
         transports.append(("with_bridge", "bridge", "%s stdio" % vh))
         for name, mode, arg in transports:
